@@ -1,6 +1,7 @@
 package vc
 
 import (
+	"os"
 	"fmt"
 	"go/constant"
 	"go/token"
@@ -222,10 +223,12 @@ func (f *FnVC) specIdent(env *SEnv, e *spec.Expr, want types.Type) (Val, error) 
 	}
 	if cell, ok := env.cells[e.Tok]; ok {
 		if pt, ok := unalias(cell.Typ).Underlying().(*types.Pointer); ok {
+			f.lintLocal(e.Tok)
 			return f.loadAt(env.cur, cell, pt.Elem()), nil
 		}
 	}
 	if v, ok := env.names[e.Tok]; ok {
+		f.lintLocal(e.Tok)
 		return v, nil
 	}
 	// package-level constant / variable
@@ -1329,3 +1332,40 @@ func (f *FnVC) byteOf(env *SEnv, x Val, i Term) (Term, error) {
 	}
 	return Term{}, fmt.Errorf("not a byte sequence: %s", x.T.Sort)
 }
+
+// lintLocal (VERIF_LINT_LOCALS=1): reports contract clauses that name a local variable of the function (not a parameter,
+// result, receiver or captured variable). Such a clause is brittle under renaming and can be a tautology when the local is
+// simply the value the code passes on; the list is reviewed by hand.
+func (f *FnVC) lintLocal(name string) {
+	if os.Getenv("VERIF_LINT_LOCALS") == "" || name == "result" || name == "value" || strings.HasPrefix(name, "arg") || name == "rangeindex" {
+		return
+	}
+	for _, p := range f.Fn.Params {
+		if p.Name() == name {
+			return
+		}
+	}
+	for _, fv := range f.Fn.FreeVars {
+		if fv.Name() == name {
+			return
+		}
+	}
+	if res := f.Fn.Signature.Results(); res != nil {
+		for i := 0; i < res.Len(); i++ {
+			if res.At(i).Name() == name {
+				return
+			}
+		}
+	}
+	if f.localVarType(name) == nil {
+		return
+	}
+	key := f.Short + " names local " + name
+	if lintSeen[key] {
+		return
+	}
+	lintSeen[key] = true
+	fmt.Fprintln(os.Stderr, "LINT "+key)
+}
+
+var lintSeen = map[string]bool{}
